@@ -1703,4 +1703,185 @@ theorem decFeed_sim (p : Params) (i : Nat) (m : Method) (g : List UInt8) (base :
             obtain ⟨a1, a2⟩ := k5 e1 es1 hr
             exact ⟨a1, by simpa [List.map_append, Woodpile.Pipe.run_append] using a2⟩
 
+/-- A pipe without pending placeholder: the iovec has no pending backref, everything buffered is
+stable, and its flattened bytes are the pipe's. -/
+theorem SimV.no_pending {w : World} {v : Iov} {g : List UInt8} {toks : List Backref} {q : Pipe}
+    (h : SimV w v g toks q) (hp : q.pending = false) :
+    v.hasPending = false ∧ w.visible v = w.flat v.slices ∧ w.flat v.slices = q.bytes ∧
+      absCells w v = q.cells := by
+  have hcells : absCells w v = q.cells := by rw [h.cells, rename_of_no_hole _ _ hp]
+  have hpend : v.hasPending = false := by
+    rw [hasPending_eq_pending h.inv, hcells]; exact hp
+  obtain ⟨g1, g2⟩ := visible_all_of_no_pending h.inv hpend
+  refine ⟨hpend, g1, ?_, hcells⟩
+  unfold Pipe.bytes
+  rw [← hcells, g2, g1]; simp
+
+/-- One decoder call: a borrowed piece lives in a fresh caller buffer (as in `Driver/CodecW.lean`). -/
+def decFeedCall (p : Params) (i : Nat) (w : World) (s : DecState) : Method → List UInt8 →
+    Option (World × Except DecErr DecState)
+  | .borrow, d => decFeed p .borrow (d.length + 1) (w.addExt d).1 i s ⟨.ext w.exts.length, 0, d.length⟩ d 0
+  | .copy, d => decFeed p .copy (d.length + 1) w i s ⟨.ext 0, 0, 0⟩ d 0
+
+/-- The calls, then `Decoder::finish`; stops at the first decoding error (the Rust decoder is
+consumed by the error).  Returns the world, the drained bytes and the verdict. -/
+def decCalls (p : Params) (i : Nat) : World → DecState → List UInt8 → List Call →
+    Option (World × List UInt8 × Except DecErr Unit)
+  | w, s, dr, [] => some (w, dr, Dec.finish s)
+  | w, s, dr, .feed m d :: t =>
+    match decFeedCall p i w s m d with
+    | none => none
+    | some (w', .ok s') => decCalls p i w' s' dr t
+    | some (w', .error e) => some (w', dr, .error e)
+  | w, s, dr, .consume k :: t =>
+    match w.iov i, w.consume i k with
+    | some v, some x => decCalls p i x.1 s (dr ++ w.flat (v.slices.take x.2)) t
+    | _, _ => none
+  | w, s, dr, .advance k :: t =>
+    match w.iov i, w.advance i k with
+    | some v, some x => decCalls p i x.1 s (dr ++ (w.flat v.slices).take x.2) t
+    | _, _ => none
+
+/-- `Decoder::new()` on a fresh iovec, the calls, `finish()`. -/
+def decRun (p : Params) (pol : Policy) (tun : Tuning) (calls : List Call) :
+    Option (World × List UInt8 × Except DecErr Unit) :=
+  decCalls p 0 (World.fresh pol tun) .initial [] calls
+
+theorem decFeedCall_sim (p : Params) (i : Nat) (m : Method) (d : List UInt8) (w : World) (v : Iov)
+    (g : List UInt8) (s : DecState) (q : Pipe) (hv : w.iov i = some v) (h : SimV w v g [] q) :
+    ∃ w' v' res, decFeedCall p i w s m d = some (w', res) ∧ w'.iov i = some v' ∧
+      (∀ s' es, Dec.feedAll p m s d = .ok (s', es) → res = .ok s' ∧ SimV w' v' g [] (q.run (es.map (·.op)))) ∧
+      (∀ err es, Dec.feedAll p m s d = .error (err, es) → res = .error err ∧
+        SimV w' v' g [] (q.run (es.map (·.op)))) := by
+  cases m with
+  | copy =>
+    obtain ⟨w', v', res, h1, h2, _, h4, h5⟩ := decFeed_sim p i .copy g ⟨.ext 0, 0, 0⟩ (d.length + 1) w v s q d 0 hv h
+      (fun hm => by cases hm)
+    exact ⟨w', v', res, h1, h2, h4, h5⟩
+  | borrow =>
+    obtain ⟨w', v', res, h1, h2, _, h4, h5⟩ := decFeed_sim p i .borrow g ⟨.ext w.exts.length, 0, d.length⟩
+      (d.length + 1) (w.addExt d).1 v s q d 0 hv (h.addExt d) (fun _ => ⟨w.exts.length, rfl, InBuf.addExt w d⟩)
+    exact ⟨w', v', res, h1, h2, h4, h5⟩
+
+/-- The decoder's whole run on the structural iovec agrees with the pipe-level run
+(`Dec.runPieces`): no panic, the same verdict; the iovec represents the pipe built by the emits
+(all appends) under some drain schedule. -/
+theorem decCalls_sim (p : Params) (i : Nat) (calls : List Call) :
+    ∀ (w : World) (v : Iov) (s : DecState) (dr : List UInt8) (evs : List Ev) (acc : List Emit),
+    w.iov i = some v → SimV w v dr [] (runEv Woodpile.Pipe.empty evs) → prodOps evs = acc.map (·.op) →
+    Woodpile.Hcobs.DecProof.AppendOnly acc →
+    ∃ w' v' dr' res evs', decCalls p i w s dr calls = some (w', dr', res) ∧ w'.iov i = some v' ∧
+      SimV w' v' dr' [] (runEv Woodpile.Pipe.empty evs') ∧
+      (prodOps evs').all Woodpile.Pipe.Op.isAppend = true ∧
+      (∀ e, Dec.runPieces p (pieces calls) s acc = .error e → res = .error e) ∧
+      (∀ es, Dec.runPieces p (pieces calls) s acc = .ok es → res = .ok () ∧ prodOps evs' = es.map (·.op)) := by
+  induction calls with
+  | nil =>
+    intro w v s dr evs acc hv h hev hacc
+    refine ⟨w, v, dr, Dec.finish s, evs, rfl, hv, h, by rw [hev]; exact hacc, ?_, ?_⟩
+    · intro e he
+      simp only [pieces, Dec.runPieces] at he
+      cases hf : Dec.finish s with
+      | error e' => rw [hf] at he; simp only [Except.error.injEq] at he; rw [he]
+      | ok u => rw [hf] at he; cases he
+    · intro es he
+      simp only [pieces, Dec.runPieces] at he
+      cases hf : Dec.finish s with
+      | error e' => rw [hf] at he; cases he
+      | ok u => rw [hf] at he; simp only [Except.ok.injEq] at he; subst he; exact ⟨rfl, hev⟩
+  | cons c t ih =>
+    intro w v s dr evs acc hv h hev hacc
+    cases c with
+    | feed m d =>
+      obtain ⟨w1, v1, res1, h1, h2, h3, h4⟩ := decFeedCall_sim p i m d w v dr s _ hv h
+      have hao := Woodpile.Hcobs.DecProof.feed_appendOnly p m (d.length + 1) s d
+      cases hf : Dec.feedAll p m s d with
+      | error ee =>
+        obtain ⟨err, es⟩ := ee
+        obtain ⟨a1, a2⟩ := h4 err es hf
+        subst a1
+        unfold Dec.feedAll at hf
+        rw [hf] at hao
+        refine ⟨w1, v1, dr, .error err, evs ++ (es.map (·.op)).map Ev.prod, by simp only [decCalls, h1], h2, ?_, ?_, ?_, ?_⟩
+        · rw [Woodpile.Pipe.runEv_append, runEv_prods]; exact a2
+        · rw [Woodpile.Pipe.prodOps_append, prodOps_prods, hev, List.all_append, Bool.and_eq_true]
+          exact ⟨hacc, hao⟩
+        · intro e he
+          simp only [pieces, Dec.runPieces, Dec.feedAll, hf, Except.error.injEq] at he
+          rw [he]
+        · intro es' he
+          simp only [pieces, Dec.runPieces, Dec.feedAll, hf] at he
+          cases he
+      | ok se =>
+        obtain ⟨s1, es⟩ := se
+        obtain ⟨a1, a2⟩ := h3 s1 es hf
+        subst a1
+        have hf' := hf
+        unfold Dec.feedAll at hf'
+        rw [hf'] at hao
+        obtain ⟨w2, v2, dr2, res2, evs2, k1, k2, k3, k4, k5, k6⟩ := ih w1 v1 s1 dr
+          (evs ++ (es.map (·.op)).map Ev.prod) (acc ++ es) h2
+          (by rw [Woodpile.Pipe.runEv_append, runEv_prods]; exact a2)
+          (by rw [Woodpile.Pipe.prodOps_append, prodOps_prods, hev, List.map_append])
+          (Woodpile.Hcobs.DecProof.appendOnly_append hacc hao)
+        refine ⟨w2, v2, dr2, res2, evs2, by simp only [decCalls, h1]; exact k1, k2, k3, k4, ?_, ?_⟩
+        · intro e he
+          simp only [pieces, Dec.runPieces, hf] at he
+          exact k5 e he
+        · intro es' he
+          simp only [pieces, Dec.runPieces, hf] at he
+          exact k6 es' he
+    | consume k =>
+      obtain ⟨v', h1, h2, _⟩ := World.consume_spec w i v k hv h.inv
+      have hm : sumLens (v.slices.take (min k v.stableN)) ≤ sumLens (v.slices.take v.stableN) :=
+        sumLens_take_mono _ (Nat.min_le_right _ _)
+      obtain ⟨g1, _, _⟩ := h.consumed h2 hm
+      rw [flat_take_prefix w v.arena v.slices _ h.inv.slices_ok] at g1
+      obtain ⟨w2, v2, dr2, res2, evs2, k1, k2, k3, k4, k5, k6⟩ := ih (w.setIov i (some v')) v' s
+        (dr ++ w.flat (v.slices.take (min k v.stableN)))
+        (evs ++ [.drain (sumLens (v.slices.take (min k v.stableN)))]) acc (by simp)
+        (by rw [Woodpile.Pipe.runEv_append]; exact g1.setIov i _)
+        (by rw [Woodpile.Pipe.prodOps_append, hev]; simp [prodOps]) hacc
+      exact ⟨w2, v2, dr2, res2, evs2, by simp only [decCalls, hv, h1]; exact k1, k2, k3, k4, k5, k6⟩
+    | advance k =>
+      obtain ⟨v', h1, h2⟩ := World.advance_spec w i v k hv h.inv
+      obtain ⟨g1, _, _⟩ := h.consumed h2 (Nat.min_le_right _ _)
+      obtain ⟨w2, v2, dr2, res2, evs2, k1, k2, k3, k4, k5, k6⟩ := ih (w.setIov i (some v')) v' s
+        (dr ++ (w.flat v.slices).take (min k (sumLens (v.slices.take v.stableN))))
+        (evs ++ [.drain (min k (sumLens (v.slices.take v.stableN)))]) acc (by simp)
+        (by rw [Woodpile.Pipe.runEv_append]; exact g1.setIov i _)
+        (by rw [Woodpile.Pipe.prodOps_append, hev]; simp [prodOps]) hacc
+      exact ⟨w2, v2, dr2, res2, evs2, by simp only [decCalls, hv, h1]; exact k1, k2, k3, k4, k5, k6⟩
+
+/-- The decoder's whole run: never panics; `Ok` exactly when the pipe-level decoder (hence
+`Spec.decode`) accepts the concatenated input, and then drained ++ flattened is the decoded data;
+an error is the pipe-level decoder's error; in both cases nothing is ever pending (lag 0). -/
+theorem decRun_sim (p : Params) (pol : Policy) (tun : Tuning) (calls : List Call) :
+    ∃ w' v' dr res, decRun p pol tun calls = some (w', dr, res) ∧ w'.iov 0 = some v' ∧ IovInv w' v' ∧
+      v'.hasPending = false ∧ w'.visible v' = w'.flat v'.slices ∧
+      (∀ e, res = .error e ↔ Dec.output p (pieces calls) = .error e) ∧
+      (res = .ok () ↔ Dec.output p (pieces calls) = .ok (dr ++ w'.flat v'.slices)) ∧
+      (res = .ok () ↔ ∃ d, Dec.output p (pieces calls) = .ok d) := by
+  obtain ⟨w', v', dr, res, evs, h1, h2, h3, h4, h5, h6⟩ := decCalls_sim p 0 calls (World.fresh pol tun) Iov.empty
+    .initial [] [] [] rfl (simV_fresh pol tun) rfl rfl
+  have hlag := Woodpile.Pipe.drain_complete Woodpile.Pipe.empty evs
+  rw [Woodpile.Pipe.total_empty] at hlag
+  have hpend : (runEv Woodpile.Pipe.empty evs).pending = false := by
+    rw [hlag.2]; exact Woodpile.Pipe.pending_run_appendOnly _ _ h4 rfl
+  obtain ⟨g1, g2, g3, _⟩ := h3.no_pending hpend
+  have hbytes : dr ++ w'.flat v'.slices = (Woodpile.Pipe.empty.run (prodOps evs)).bytes := by
+    rw [g3, h3.ghost]; exact hlag.1
+  refine ⟨w', v', dr, res, h1, h2, h3.inv, g1, g2, ?_⟩
+  unfold Dec.output
+  cases hr : Dec.runPieces p (pieces calls) .initial [] with
+  | error e0 =>
+    have := h5 e0 hr
+    subst this
+    refine ⟨fun e => by simp, by simp, by simp⟩
+  | ok es =>
+    obtain ⟨a1, a2⟩ := h6 es hr
+    subst a1
+    rw [a2] at hbytes
+    refine ⟨fun e => by simp, by simp [hbytes], by simp⟩
+
 end Woodpile.EncWorld
